@@ -2,10 +2,15 @@
 (* Design check of Limits.tla: runs of length `needed` (or endless = 99), idle gaps, sleeping phases. *)
 EXTENDS Limits
 
-CONSTANTS Max, Slack, Cap
+CONSTANTS Max, Slack, Cap,
+          EvalIsOwnExecution,       \* TRUE ideal: an expression evaluated between runs (runtime::evaluate_expression, __EVAL) has a budget and
+                                    \* an exit request of its own; FALSE: it finds the exit request / budget the last run left (and never ends)
+          RefusedStartKeepsBudget   \* TRUE ideal; FALSE: a start request refused because a run is in progress renews that run's budget
 
-VARIABLES clock, created, budgetStart, phase, cur, runs, loop, idled
-vars == <<clock, created, budgetStart, phase, cur, runs, loop, idled>>
+VARIABLES clock, created, budgetStart, phase, cur, runs, loop, idled,
+          exitreq,     \* the exit request: set by the deadline abort, cleared when a run starts
+          saved        \* what an evaluation put aside: [exitreq, budgetStart]
+vars == <<clock, created, budgetStart, phase, cur, runs, loop, idled, exitreq, saved>>
 
 Needs == {2, 4, 99}          \* instructions the run wants to execute (99 = never finishes)
 Gaps == {0, 10}
@@ -13,14 +18,26 @@ Gaps == {0, 10}
 Init == /\ clock = 0 /\ created = 0 /\ budgetStart = 0 /\ phase = "idle" /\ runs = <<>>
         /\ cur = [start |-> 0, needed |-> 0, executed |-> 0, sleepleft |-> 0, total |-> 0]
         /\ loop = [iters |-> 0, counted |-> 0, body |-> "none", done |-> TRUE] /\ idled = FALSE
+        /\ exitreq = FALSE /\ saved = [exitreq |-> FALSE, budgetStart |-> 0]
 
-Idle == \E g \in Gaps : phase = "idle" /\ ~idled /\ Len(runs) < 3 /\ clock' = clock + g /\ idled' = TRUE /\ UNCHANGED <<created, budgetStart, phase, cur, runs, loop>>
+Idle == \E g \in Gaps : phase = "idle" /\ ~idled /\ Len(runs) < 3 /\ clock' = clock + g /\ idled' = TRUE /\ UNCHANGED <<created, budgetStart, phase, cur, runs, loop, exitreq, saved>>
 
 RunBegin == \E n \in Needs, sl \in {0, 8, 20} :
     /\ phase = "idle" /\ Len(runs) < 3
     /\ phase' = "run"
     /\ budgetStart' = IF BudgetFromRunStart THEN clock ELSE budgetStart
     /\ cur' = [start |-> clock, needed |-> n, executed |-> 0, sleepleft |-> sl, total |-> IF n = 99 THEN 99 ELSE n + sl]
+    /\ exitreq' = FALSE
+    /\ idled' = FALSE /\ UNCHANGED <<clock, created, runs, loop, saved>>
+
+\* the embedder evaluates an expression between two runs (what preprocessing `__EVAL` does)
+EvalBegin == \E n \in {2, 99} :
+    /\ phase = "idle" /\ Len(runs) < 3
+    /\ phase' = "eval"
+    /\ saved' = [exitreq |-> exitreq, budgetStart |-> budgetStart]
+    /\ exitreq' = IF EvalIsOwnExecution THEN FALSE ELSE exitreq
+    /\ budgetStart' = IF EvalIsOwnExecution THEN clock ELSE budgetStart
+    /\ cur' = [start |-> clock, needed |-> n, executed |-> 0, sleepleft |-> 0, total |-> n]
     /\ idled' = FALSE /\ UNCHANGED <<clock, created, runs, loop>>
 
 Expired(t) == Max > 0 /\ t > budgetStart + Max
@@ -28,38 +45,59 @@ Expired(t) == Max > 0 /\ t > budgetStart + Max
 Finish(aborted, reported, t) ==
     /\ runs' = Append(runs, [start |-> cur.start, end |-> t, max |-> Max, aborted |-> aborted, reported |-> reported, nctx |-> 0,
                              executed |-> IF cur.needed = 99 THEN cur.executed ELSE cur.executed + (cur.total - cur.needed - cur.sleepleft), needed |-> cur.total])
-    /\ phase' = "idle" /\ UNCHANGED <<created, budgetStart, cur, loop, idled>>
+    /\ exitreq' = IF phase = "eval" /\ EvalIsOwnExecution THEN saved.exitreq ELSE (aborted \/ exitreq)
+    /\ budgetStart' = IF phase = "eval" /\ EvalIsOwnExecution THEN saved.budgetStart ELSE budgetStart
+    /\ phase' = "idle" /\ UNCHANGED <<created, cur, loop, idled, saved>>
 
 \* before every instruction the deadline test reads the clock
 Instr == /\ phase = "run" /\ cur.sleepleft = 0 /\ cur.executed < cur.needed
          /\ LET t == clock + 1 IN
             IF Expired(t) THEN clock' = t /\ Finish(TRUE, TRUE, t)
-            ELSE clock' = t /\ cur' = [cur EXCEPT !.executed = cur.executed + 1] /\ UNCHANGED <<created, budgetStart, phase, runs, loop, idled>>
+            ELSE clock' = t /\ cur' = [cur EXCEPT !.executed = cur.executed + 1] /\ UNCHANGED <<created, budgetStart, phase, runs, loop, idled, exitreq, saved>>
+
+\* a script asks the running VM to start (vmctrl__ "start"): refused, an instruction like any other
+StartRequest == /\ phase = "run" /\ cur.sleepleft = 0 /\ cur.executed < cur.needed /\ cur.needed = 99
+                /\ ~RefusedStartKeepsBudget /\ budgetStart # clock
+                /\ budgetStart' = clock
+                /\ UNCHANGED <<clock, created, phase, cur, runs, loop, idled, exitreq, saved>>
+
+\* one step of an evaluation: nothing executes once an exit is requested. The ideal evaluation is over then;
+\* the deviation waits for its context to empty (the clock runs on: recorded as ended far beyond the limit)
+EvalInstr == /\ phase = "eval" /\ cur.executed < cur.needed
+             /\ LET t == clock + 1 IN
+                IF exitreq THEN (IF EvalIsOwnExecution THEN clock' = t /\ Finish(TRUE, TRUE, t)
+                                 ELSE clock' = clock + Max + Slack + 5 /\ Finish(FALSE, FALSE, clock + Max + Slack + 5))
+                ELSE IF Expired(t) THEN clock' = t /\ exitreq' = TRUE /\ UNCHANGED <<created, budgetStart, phase, cur, runs, loop, idled, saved>>
+                ELSE clock' = t /\ cur' = [cur EXCEPT !.executed = cur.executed + 1] /\ UNCHANGED <<created, budgetStart, phase, runs, loop, idled, exitreq, saved>>
+EvalEnd == /\ phase = "eval" /\ cur.executed = cur.needed /\ cur.needed # 99
+           /\ Finish(FALSE, FALSE, clock) /\ UNCHANGED clock
 
 \* every script sleeps: a scheduler pass reads the clock for the wake-up test
 Spin == /\ phase = "run" /\ cur.sleepleft > 0
         /\ LET t == clock + 1 IN
            IF DeadlineWhileAsleep /\ Expired(t) THEN clock' = t /\ Finish(TRUE, TRUE, t)
-           ELSE clock' = t /\ cur' = [cur EXCEPT !.sleepleft = cur.sleepleft - 1] /\ UNCHANGED <<created, budgetStart, phase, runs, loop, idled>>
+           ELSE clock' = t /\ cur' = [cur EXCEPT !.sleepleft = cur.sleepleft - 1] /\ UNCHANGED <<created, budgetStart, phase, runs, loop, idled, exitreq, saved>>
 
 RunEndNormal == /\ phase = "run" /\ cur.sleepleft = 0 /\ cur.executed = cur.needed /\ cur.needed # 99
                 /\ Finish(FALSE, FALSE, clock) /\ UNCHANGED clock
 
 \* ---- while loop cap (unscheduled): one step = one evaluation of condition + body
 LoopStart == \E b \in {"empty", "nonempty"} : runs = <<>> /\ phase = "idle" /\ clock = 0 /\ loop.done /\ loop.body = "none" /\ loop' = [iters |-> 0, counted |-> 0, body |-> b, done |-> FALSE]
-                /\ UNCHANGED <<clock, created, budgetStart, phase, cur, runs, idled>>
+                /\ UNCHANGED <<clock, created, budgetStart, phase, cur, runs, idled, exitreq, saved>>
 LoopIter == /\ ~loop.done /\ runs = <<>> /\ phase = "idle" /\ loop.iters < Cap + 3
             /\ LET counts == loop.body = "nonempty" \/ EmptyBodyCounts
                    c2 == IF counts THEN loop.counted + 1 ELSE loop.counted
                IN IF Cap > 0 /\ c2 >= Cap THEN loop' = [loop EXCEPT !.iters = loop.iters + 1, !.counted = c2, !.done = TRUE]
                   ELSE loop' = [loop EXCEPT !.iters = loop.iters + 1, !.counted = c2]
-            /\ UNCHANGED <<clock, created, budgetStart, phase, cur, runs, idled>>
+            /\ UNCHANGED <<clock, created, budgetStart, phase, cur, runs, idled, exitreq, saved>>
 
-Next == Idle \/ RunBegin \/ Instr \/ Spin \/ RunEndNormal \/ LoopStart \/ LoopIter
+Next == Idle \/ RunBegin \/ Instr \/ Spin \/ RunEndNormal \/ LoopStart \/ LoopIter \/ EvalBegin \/ EvalInstr \/ EvalEnd \/ StartRequest
 Spec == Init /\ [][Next]_vars
 
 InvRunEndsInTime == \A i \in 1..Len(runs) : RunEndsInTime(runs[i], Slack)
 InvAbortReported == \A i \in 1..Len(runs) : AbortIsReported(runs[i]) /\ VmEmptyAfterAbort(runs[i])
 InvLaterRuns == \A i \in 1..Len(runs) : LaterRunsUnaffected(runs[i])
 InvWhileCapped == WhileCapped(loop.iters, Cap)
+\* the execution in progress has not outlived its limit either (a run that never ends leaves no record to judge)
+InvRunningInTime == (phase \in {"run", "eval"} /\ Max > 0) => clock <= cur.start + Max + Slack
 =============================================================================
